@@ -22,6 +22,11 @@ def lookalikes(rng, k):
             s.loads.append(dict(s.loads[0], bar=s.bars[-1]["id"]))
         s.meta = {"kind": "lookalike"}
         out.append(core.case_from_struct(s, Weight=True, Repeat=1 + i % 2))
+    for i in range(max(2, k // 3)):
+        # the same kind of bar in MN / mm: every density is a number below 1e-10, the weight is still there
+        s = G.convert_units(G.gen_single_bar(rng) if i % 2 else G.gen_frame(rng, max_cells=1), 10, Fr(1, 10 ** 6))
+        s.meta = {"kind": "tiny-density"}
+        out.append(core.case_from_struct(s, Weight=True))
     return out
 
 
